@@ -253,7 +253,7 @@ var props = map[string]*propConfig{
 		Rule:        "machine histories in which the user runs the real gotelemetry on / local / off / clean (their os.Exit paths simulated) between uploader rounds over directories populated by the simulation plus foreign files whose names match exactly, nearly (x.v1.count.bak, y.jsonx, z.v2.count, .json.swp, report.JSON) or not at all the data-file patterns, and sub-directories; after clean exactly the counter files and reports are gone and everything else hashes the same; a mode command leaves the file byte-identical when the mode is already the requested one, otherwise writes `<mode> <simulated UTC date>` which the library reads back; before clean the upload directory may not exist yet or local/ may have been removed by hand, and non-empty sub-directories named like data files hold foreign files; one command in five finds a mode file that holds no valid mode",
 		Real:        []string{"internal/upload (all of it: findWork, reports, createReport, uploadReport; instrumented)", "internal/telemetry (mode file)", "internal/config", "internal/counter.Parse (uninstrumented in this world)", "cmd/gotelemetry runOn/runLocal/runOff/runClean", "Linux tmpfs (O_EXCL, link, rename semantics are the kernel's)"},
 		Stub:        []string{"the `go` command that internal/configstore.Download runs (`go mod download -json`): simulated, it prints the module directory of the simulated config store's current version; Download itself is the real code", "upload server: a policy stub deciding each request's fate (200 / 4xx / 5xx / no answer / processed-but-answer-lost / duplicate delivery); its verdict on a given body is stable", "counter files are produced by the independent encoder (refformat)", "crypto/rand.Reader replaced so that X is chosen by the tape", "Go scheduler, wall clock"},
-		Assumptions: []string{"sub-directories do not carry data suffixes (whether a directory called x.json is a report is not decided by the statement)"},
+		Assumptions: []string{"sub-directories do not carry data suffixes (whether a directory called x.json is a report is not decided by the statement)", "local/ and upload/ are directories, not symbolic links to directories (not generated: the oracles' directory snapshots do not follow links)"},
 		Probes:      []string{"clean"},
 	},
 	"C16": {
@@ -266,7 +266,7 @@ var props = map[string]*propConfig{
 		Rule:        "one run = 2..8 starter processes (child marker unset / 1 / 2 / junk, crash-reporting flag, upload flag) calling the real Start concurrently with mode on / local / off / missing / garbage and the upload token absent / fresh / stale (incl. exactly 24 h), interleaved at file-system-call granularity (stat token, remove, exclusive create), some starters hours apart; spawned children run the real child path (marker rewrite, counter.Open, upload.Run) and the stubbed config download spawns a descendant that calls Start again; checked at every spawn: mode not off, spawner not a telemetry child or descendant, upload flag only with a token acquired in this call and requested, otherwise crash reporting requested; mode off: no mutating call, directory unchanged; within-24h family: at most one token acquisition (none if a fresh token exists); a third of the processes enter through MaybeChild before Start (only a process marked 1 may stay in it); mode files as the commands write them or hand-written (no date, trailing newline, CRLF, surrounding spaces); a separate per-user default directory with its own mode; the n-th start of a telemetry child may fail and the debug directory may exist (sidecar.log possibly a directory); marker near-misses (0, 3, 01, 1 with a trailing space, true, 11); an inherited upload variable; one file-system call of the run may fail; a process in the sidecar role may touch nothing before it has rewritten its marker",
 		Real:        []string{"Start, parent, startChild, child, uploaderChild, acquireUploadToken (start.go)", "counter.Open / internal/counter", "internal/upload.Run", "internal/telemetry"},
 		Stub:        []string{"process creation, environment, os.Exit, log.Fatal: simulated process table", "internal/crashmonitor.Parent/Child (they take over crash output and stdin)", "the `go` command run by internal/configstore.Download (real code): a simulated descendant that calls Start with the inherited environment and prints the directory of an empty config", "upload server (always 200)", "clock and file modification times"},
-		Assumptions: []string{"simulated processes share one address space: package-level state of internal/counter (the default file) is shared by them", "the statement is only-if: whether a child must be launched when permitted is not checked", "the token is observed as the exclusive creation of local/upload.token and a telemetry child as a process whose marker variable is 1 and becomes 2: other mechanisms for the same clauses would need other observers"},
+		Assumptions: []string{"simulated processes share one address space: package-level state of internal/counter (the default file) is shared by them", "the statement is only-if: whether a child must be launched when permitted is not checked", "the per-user default directory is chosen when the telemetry package is initialised, before a simulation is attached: the harness sets it itself, so a process without HOME or XDG_CONFIG_HOME is not simulated", "the token is observed as the exclusive creation of local/upload.token and a telemetry child as a process whose marker variable is 1 and becomes 2: other mechanisms for the same clauses would need other observers"},
 		Probes:      []string{"spawned", "token-acquired", "mode-off", "token-2"},
 	},
 	"C12": {
